@@ -154,7 +154,19 @@ class MarkovSequence(Generic[N]):
 
         output_scale = marginal.prototype_output_scale_calibrated()
         conditional = transition_vmap(np.diff(grid), output_scale)
-        return cls(marginal, conditional, reverse=reverse)
+        if not reverse:
+            return cls(marginal, conditional, reverse=False)
+
+        # A backward factorisation of the same law starts from the marginal
+        # at the last grid point and conditions earlier on later states.
+        # (The initial marginal with the forward transitions, labelled
+        # 'reverse', would be the law of another process.)
+        def step(rv, transition):
+            rv_next, backward = transition.revert(rv, solve_triu=linalg.solve_triu)
+            return rv_next, backward
+
+        terminal, backward = flow.scan(step, init=marginal, xs=conditional)
+        return cls(terminal, backward, reverse=True)
 
     def rescale_cholesky(self, factor, /):
         marg = self.marginal.rescale_cholesky(factor)
